@@ -496,7 +496,7 @@ func (m *Machine) callFunction(caller *frame, fn *ssa.Function, args []Value, en
 		m.res.Stubs[name] = true
 		return h(m, caller, fn, args)
 	}
-	if fn.Blocks == nil && fn.Pkg != nil {
+	if fn.Pkg != nil { // Build is once-guarded and waits for a build in progress on another worker
 		fn.Pkg.Build()
 	}
 	if fn.Blocks == nil {
